@@ -31,17 +31,19 @@ type frame struct {
 }
 
 type Exec struct {
-	vc      *VC
-	eng     *Engine
-	fc      *FuncContract
-	top     *ssa.Function
-	entry   *State
-	stack   []*ssa.Function
-	safety  bool
-	params  map[string]Val // contract param names -> entry values
-	overflw string
-	siteSeq map[string]int
+	vc         *VC
+	eng        *Engine
+	fc         *FuncContract
+	top        *ssa.Function
+	entry      *State
+	stack      []*ssa.Function
+	safety     bool
+	params     map[string]Val // contract param names -> entry values
+	overflw    string
+	siteSeq    map[string]int
 	topTargets []modTarget
+	loopIns    []*State
+	topReturns []retEdge
 }
 
 func (x *Exec) pos(p token.Pos) token.Position { return x.eng.fset.Position(p) }
@@ -356,6 +358,14 @@ func (x *Exec) execFunc(fn *ssa.Function, args []Val, bindings []Val, st *State,
 		dead.pc = TFalse
 		return dead, Val{}, nil
 	}
+	if depth == 0 {
+		x.topReturns = nil
+		for _, r := range fr.returns {
+			if r.st.pc.B != -1 {
+				x.topReturns = append(x.topReturns, retEdge{r.st.clone(), r.res})
+			}
+		}
+	}
 	var sts []*State
 	for _, r := range fr.returns {
 		sts = append(sts, r.st)
@@ -426,6 +436,28 @@ func (x *Exec) runRegion(fr *frame, region map[*ssa.BasicBlock]bool, self *loopI
 		if len(ins) == 0 {
 			continue
 		}
+		nomerge := fr.depth == 0 && x.fc != nil && x.fc.Opts["nomerge"] != "" && self == nil
+		if nomerge && (fr.forest.byHeader[b] == nil || fr.forest.byHeader[b] == self) {
+			// path-sensitive mode: run the block once per incoming path
+			var live []*State
+			for _, s := range ins {
+				if s.pc.B != -1 {
+					live = append(live, s)
+				}
+			}
+			if len(live) > 1 && len(live) <= 64 {
+				done[b] = true
+				for _, s := range live {
+					if err := x.execBlock(fr, b, s, route); err != nil {
+						return nil, err
+					}
+					if routeErr != nil {
+						return nil, routeErr
+					}
+				}
+				continue
+			}
+		}
 		cur, err := x.merge(ins)
 		if err != nil {
 			return nil, err
@@ -434,6 +466,10 @@ func (x *Exec) runRegion(fr *frame, region map[*ssa.BasicBlock]bool, self *loopI
 			continue
 		}
 		if li := fr.forest.byHeader[b]; li != nil && li != self {
+			x.loopIns = nil
+			if nomerge {
+				x.loopIns = ins
+			}
 			les, err := x.runLoop(fr, li, cur)
 			if err != nil {
 				return nil, err
@@ -545,14 +581,28 @@ func (x *Exec) runLoop(fr *frame, li *loopInfo, st *State) ([]edge, error) {
 		return out, nil
 	}
 	// invariant mode
-	env := x.specEnv(fr, st, li)
-	for i, inv := range spec.Invariants {
-		t, err := x.evalBool(inv.Expr, env)
-		if err != nil {
-			return nil, fmt.Errorf("%s:%d: loop %d invariant: %w", inv.File, inv.Line, li.ordinal, err)
+	entries := []*State{st}
+	if len(x.loopIns) > 1 {
+		entries = nil
+		for _, s := range x.loopIns {
+			if s.pc.B != -1 {
+				entries = append(entries, s)
+			}
 		}
-		x.vc.oblige("inv-entry", fmt.Sprintf("%s/inv#%d/entry", name, i), st.pc, t, hpos, inv.Text)
 	}
+	x.loopIns = nil
+	for _, est := range entries {
+		env := x.specEnv(fr, est, li)
+		env.pol = -1
+		for i, inv := range spec.Invariants {
+			t, err := x.evalBool(inv.Expr, env)
+			if err != nil {
+				return nil, fmt.Errorf("%s:%d: loop %d invariant: %w", inv.File, inv.Line, li.ordinal, err)
+			}
+			x.vc.oblige("inv-entry", fmt.Sprintf("%s/inv#%d/entry", name, i), est.pc, t, hpos, inv.Text)
+		}
+	}
+	env := x.specEnv(fr, st, li)
 	// fixpoint of havoc set by dry runs
 	hav := newHavocSet()
 	for round := 0; ; round++ {
@@ -563,7 +613,10 @@ func (x *Exec) runLoop(fr *frame, li *loopInfo, st *State) ([]edge, error) {
 		x.applyHavoc(fr, probe, hav, nil)
 		x.vc.dry++
 		mark := len(x.vc.trace)
+		outerLog := x.vc.wlog
+		x.vc.wlog = hav.wl
 		exits, err := x.runRegion(fr, li.blocks, li, li.header, probe.clone())
+		x.vc.wlog = outerLog
 		x.vc.dry--
 		x.vc.trace = x.vc.trace[:mark]
 		if err != nil {
@@ -582,6 +635,7 @@ func (x *Exec) runLoop(fr *frame, li *loopInfo, st *State) ([]edge, error) {
 	head := st.clone()
 	x.applyHavoc(fr, head, hav, st)
 	env = x.specEnv(fr, head, li)
+	env.pol = 1
 	var invTerms []Term
 	for _, inv := range spec.Invariants {
 		t, err := x.evalBool(inv.Expr, env)
@@ -610,6 +664,7 @@ func (x *Exec) runLoop(fr *frame, li *loopInfo, st *State) ([]edge, error) {
 			continue
 		}
 		benv := x.specEnv(fr, e.st, li)
+		benv.pol = -1
 		for i, inv := range spec.Invariants {
 			t, err := x.evalBool(inv.Expr, benv)
 			if err != nil {
@@ -649,10 +704,11 @@ type havocSet struct {
 	cells map[int]bool
 	heap  map[string]bool
 	ghost map[string]bool
+	wl    *writeLog // which heap maps were written wholesale / only at some struct fields
 }
 
 func newHavocSet() *havocSet {
-	return &havocSet{cells: map[int]bool{}, heap: map[string]bool{}, ghost: map[string]bool{}}
+	return &havocSet{cells: map[int]bool{}, heap: map[string]bool{}, ghost: map[string]bool{}, wl: &writeLog{whole: map[string]bool{}, fields: map[string]map[int]bool{}}}
 }
 
 func (h *havocSet) absorb(before, after *State) bool {
@@ -756,6 +812,23 @@ func (x *Exec) applyHavoc(fr *frame, st *State, hav *havocSet, pre *State) {
 		oldH := x.vc.heapGet(st, k, sortS)
 		nh := x.vc.freshConst("Hh", sortS)
 		st.heap[k] = nh
+		precise := !hav.wl.whole[k] && len(hav.wl.fields[k]) > 0
+		if x.vc.wlog != nil && x.vc.wlog != hav.wl {
+			// this loop is itself inside a probed (outer) loop body: forward what it writes
+			if !precise {
+				x.vc.wlog.whole[k] = true
+			} else {
+				if x.vc.wlog.fields[k] == nil {
+					x.vc.wlog.fields[k] = map[int]bool{}
+				}
+				for f := range hav.wl.fields[k] {
+					x.vc.wlog.fields[k][f] = true
+				}
+			}
+		}
+		if precise {
+			x.keepFields(st, k, sortS, oldH, nh, hav.wl.fields[k])
+		}
 		if k == "$alloc" {
 			// allocation only grows
 			x.vc.assert(raw(fmt.Sprintf("(forall ((r Int)) (! (=> (select %s r) (select %s r)) :pattern ((select %s r))))", oldH.S, nh.S, nh.S), SBool))
@@ -770,6 +843,36 @@ func (x *Exec) applyHavoc(fr *frame, st *State, hav *havocSet, pre *State) {
 	for k := range hav.ghost {
 		if t, ok := st.ghost[k]; ok {
 			st.ghost[k] = x.vc.freshConst("gh", t.Sort)
+		}
+	}
+}
+
+// keepFields: the loop writes only the given top-level fields of the struct values held in
+// heap map k; every other field is unchanged by the loop.
+func (x *Exec) keepFields(st *State, k, sortS string, oldH, nh Term, written map[int]bool) {
+	vc := x.vc
+	_, vs := arraySorts(sortS)
+	elem := false
+	if strings.HasPrefix(vs, "(Array ") {
+		_, vs = arraySorts(vs)
+		elem = true
+	}
+	su, ok := vc.structs[vs]
+	if !ok {
+		return
+	}
+	idx := vc.ar.IdxSort()
+	for i := 0; i < su.NumFields(); i++ {
+		if written[i] {
+			continue
+		}
+		acc := vs + "." + fieldName(su, i)
+		if elem {
+			vc.assert(raw(fmt.Sprintf("(forall ((r!k Int) (i!k %s)) (! (= (%s (select (select %s r!k) i!k)) (%s (select (select %s r!k) i!k))) :pattern ((select (select %s r!k) i!k))))",
+				idx, acc, nh.S, acc, oldH.S, nh.S), SBool))
+		} else {
+			vc.assert(raw(fmt.Sprintf("(forall ((r!k Int)) (! (= (%s (select %s r!k)) (%s (select %s r!k))) :pattern ((select %s r!k))))",
+				acc, nh.S, acc, oldH.S, nh.S), SBool))
 		}
 	}
 }
@@ -977,8 +1080,14 @@ func (x *Exec) execInstr(fr *frame, st *State, in ssa.Instruction) error {
 			}
 			return nil
 		}
-		vc.cellSeq++
-		id := vc.cellSeq
+		// one cell per Alloc instruction (activations of the same instruction never overlap:
+		// recursion is not inlined), so that path-sensitive runs can be merged again
+		id, ok := vc.cellIDs[i]
+		if !ok {
+			vc.cellSeq++
+			id = vc.cellSeq
+			vc.cellIDs[i] = id
+		}
 		st.cellOf[i] = id
 		st.cells[id] = Val{T: vc.zeroOf(et), Typ: et}
 		x.setReg(st, i, Val{Loc: &Loc{Kind: LCell, Cell: id, RootT: et}})
@@ -1118,9 +1227,9 @@ func (x *Exec) execInstr(fr *frame, st *State, in ssa.Instruction) error {
 			x.setReg(st, i, Val{T: v})
 			vc.assume(st.pc, vc.wf(st, v, t.Elem(), 0))
 		case *types.Basic: // string
-			ln := app(vc.ar.IdxSort(), "str.len", xv.T)
+			ln := app(vc.ar.IdxSort(), "gs.len", xv.T)
 			x.safetyObl(fr, st, "index", i.Pos(), x.inBounds(idx, ln, i.Index.Type()), "index out of range")
-			v := app(vc.ar.Sort(IntKind{8, false}), "str.at", xv.T, idx)
+			v := app(vc.ar.Sort(IntKind{8, false}), "gs.at", xv.T, idx)
 			vc.assume(st.pc, vc.ar.InRange(v, IntKind{8, false}))
 			x.setReg(st, i, Val{T: v})
 		default:
@@ -1146,7 +1255,7 @@ func (x *Exec) execInstr(fr *frame, st *State, in ssa.Instruction) error {
 		key, hs := vc.elemKey(et)
 		as := arraySort(vc.ar.IdxSort(), vc.sortOf(et))
 		zero := raw(fmt.Sprintf("((as const %s) %s)", as, vc.zeroOf(et).S), as)
-		st.heap[key] = vc.bind("E", Store(vc.heapGet(st, key, hs), ref, zero))
+		x.vc.setHeap(st, key, vc.bind("E", Store(vc.heapGet(st, key, hs), ref, zero)), -1)
 		x.setReg(st, i, Val{T: vc.bind(i.Name(), app("Slice", "mk-slice", ref, z, ln, cp))})
 		return nil
 	case *ssa.Convert:
@@ -1225,7 +1334,7 @@ func (x *Exec) execInstr(fr *frame, st *State, in ssa.Instruction) error {
 		hk, hs, _, _ := vc.mapKeys(mt)
 		ks := vc.sortOf(mt.Key())
 		empty := raw(fmt.Sprintf("((as const %s) false)", arraySort(ks, SBool)), arraySort(ks, SBool))
-		st.heap[hk] = vc.bind("M", Store(vc.heapGet(st, hk, hs), ref, empty))
+		x.vc.setHeap(st, hk, vc.bind("M", Store(vc.heapGet(st, hk, hs), ref, empty)), -1)
 		x.setReg(st, i, Val{T: ref})
 		return nil
 	case *ssa.MapUpdate:
@@ -1252,8 +1361,8 @@ func (x *Exec) execInstr(fr *frame, st *State, in ssa.Instruction) error {
 		hk, hs, vk, vs := vc.mapKeys(mt)
 		has := vc.heapGet(st, hk, hs)
 		vals := vc.heapGet(st, vk, vs)
-		st.heap[hk] = vc.bind("M", Store(has, mv.T, Store(Select(has, mv.T), kv.T, TTrue)))
-		st.heap[vk] = vc.bind("M", Store(vals, mv.T, Store(Select(vals, mv.T), kv.T, vv.T)))
+		x.vc.setHeap(st, hk, vc.bind("M", Store(has, mv.T, Store(Select(has, mv.T), kv.T, TTrue))), -1)
+		x.vc.setHeap(st, vk, vc.bind("M", Store(vals, mv.T, Store(Select(vals, mv.T), kv.T, vv.T))), -1)
 		return nil
 	case *ssa.Lookup:
 		mv, err := x.val(st, i.X)
@@ -1416,7 +1525,7 @@ func (x *Exec) execSlice(fr *frame, st *State, i *ssa.Slice) error {
 		ncap, _ := vc.ar.Bin("-", mx, lo, kInt)
 		x.setReg(st, i, Val{T: vc.bind(i.Name(), app("Slice", "mk-slice", app(SInt, "s-ref", xv.T), noff, nlen, ncap))})
 	case *types.Basic: // string
-		ln := app(idxS, "str.len", xv.T)
+		ln := app(idxS, "gs.len", xv.T)
 		if !hasHi {
 			hi = ln
 		}
@@ -1452,10 +1561,10 @@ func (x *Exec) execSlice(fr *frame, st *State, i *ssa.Slice) error {
 
 func (vc *VC) strSub(s, lo, hi Term) Term {
 	idx := vc.ar.IdxSort()
-	vc.decl("fun:str.sub", fmt.Sprintf("(declare-fun str.sub (Str %s %s) Str)", idx, idx))
-	r := app("Str", "str.sub", s, lo, hi)
+	vc.decl("fun:gs.sub", fmt.Sprintf("(declare-fun gs.sub (Str %s %s) Str)", idx, idx))
+	r := app("Str", "gs.sub", s, lo, hi)
 	ln, _ := vc.ar.Bin("-", hi, lo, kInt)
-	vc.assert(Eq(app(idx, "str.len", r), ln))
+	vc.assert(Eq(app(idx, "gs.len", r), ln))
 	// characters
 	i := "i!q"
 	add := "(+ " + lo.S + " " + i + ")"
@@ -1464,7 +1573,7 @@ func (vc *VC) strSub(s, lo, hi Term) Term {
 		add = "(bvadd " + lo.S + " " + i + ")"
 		lt0, lt1 = "(bvsle #x0000000000000000 "+i+")", "(bvslt "+i+" "+ln.S+")"
 	}
-	vc.assert(raw(fmt.Sprintf("(forall ((%s %s)) (! (=> (and %s %s) (= (str.at %s %s) (str.at %s %s))) :pattern ((str.at %s %s))))", i, idx, lt0, lt1, r.S, i, s.S, add, r.S, i), SBool))
+	vc.assert(raw(fmt.Sprintf("(forall ((%s %s)) (! (=> (and %s %s) (= (gs.at %s %s) (gs.at %s %s))) :pattern ((gs.at %s %s))))", i, idx, lt0, lt1, r.S, i, s.S, add, r.S, i), SBool))
 	return r
 }
 
@@ -1534,10 +1643,10 @@ func (vc *VC) bytesToStr(st *State, s Term) Term {
 	key, hs := vc.elemKey(types.Typ[types.Uint8])
 	arr := Select(vc.heapGet(st, key, hs), app(SInt, "s-ref", s))
 	as := arraySort(idx, bs)
-	vc.decl("fun:str.of", fmt.Sprintf("(declare-fun str.of (%s %s %s) Str)", as, idx, idx))
+	vc.decl("fun:gs.of", fmt.Sprintf("(declare-fun gs.of (%s %s %s) Str)", as, idx, idx))
 	off, ln := app(idx, "s-off", s), app(idx, "s-len", s)
-	r := vc.bind("str", app("Str", "str.of", arr, off, ln))
-	vc.assert(Eq(app(idx, "str.len", r), ln))
+	r := vc.bind("str", app("Str", "gs.of", arr, off, ln))
+	vc.assert(Eq(app(idx, "gs.len", r), ln))
 	i := "i!q"
 	add := "(+ " + off.S + " " + i + ")"
 	lt0, lt1 := "(<= 0 "+i+")", "(< "+i+" "+ln.S+")"
@@ -1545,7 +1654,7 @@ func (vc *VC) bytesToStr(st *State, s Term) Term {
 		add = "(bvadd " + off.S + " " + i + ")"
 		lt0, lt1 = "(bvsle #x0000000000000000 "+i+")", "(bvslt "+i+" "+ln.S+")"
 	}
-	vc.assert(raw(fmt.Sprintf("(forall ((%s %s)) (! (=> (and %s %s) (= (str.at %s %s) (select %s %s))) :pattern ((str.at %s %s))))", i, idx, lt0, lt1, r.S, i, arr.S, add, r.S, i), SBool))
+	vc.assert(raw(fmt.Sprintf("(forall ((%s %s)) (! (=> (and %s %s) (= (gs.at %s %s) (select %s %s))) :pattern ((gs.at %s %s))))", i, idx, lt0, lt1, r.S, i, arr.S, add, r.S, i), SBool))
 	return r
 }
 
@@ -1555,14 +1664,14 @@ func (vc *VC) strToBytes(st *State, s Term) (Term, error) {
 	key, hs := vc.elemKey(types.Typ[types.Uint8])
 	as := arraySort(idx, vc.ar.Sort(IntKind{8, false}))
 	arr := vc.freshConst("s2barr", as)
-	ln := app(idx, "str.len", s)
+	ln := app(idx, "gs.len", s)
 	i := "i!q"
 	lt0, lt1 := "(<= 0 "+i+")", "(< "+i+" "+ln.S+")"
 	if vc.ar.Mode == ModeBV {
 		lt0, lt1 = "(bvsle #x0000000000000000 "+i+")", "(bvslt "+i+" "+ln.S+")"
 	}
-	vc.assert(raw(fmt.Sprintf("(forall ((%s %s)) (! (=> (and %s %s) (= (select %s %s) (str.at %s %s))) :pattern ((select %s %s))))", i, idx, lt0, lt1, arr.S, i, s.S, i, arr.S, i), SBool))
-	st.heap[key] = vc.bind("E", Store(vc.heapGet(st, key, hs), ref, arr))
+	vc.assert(raw(fmt.Sprintf("(forall ((%s %s)) (! (=> (and %s %s) (= (select %s %s) (gs.at %s %s))) :pattern ((select %s %s))))", i, idx, lt0, lt1, arr.S, i, s.S, i, arr.S, i), SBool))
+	vc.setHeap(st, key, vc.bind("E", Store(vc.heapGet(st, key, hs), ref, arr)), -1)
 	return vc.bind("s2b", app("Slice", "mk-slice", ref, vc.idx(0), ln, ln)), nil
 }
 
@@ -1626,25 +1735,25 @@ func (x *Exec) binop(fr *frame, st *State, op token.Token, a, b Val, at, bt, rt 
 		if isString(at) {
 			switch op {
 			case token.ADD:
-				vc.decl("fun:str.cat", "(declare-fun str.cat (Str Str) Str)")
-				r := app("Str", "str.cat", a.T, b.T)
+				vc.decl("fun:gs.cat", "(declare-fun gs.cat (Str Str) Str)")
+				r := app("Str", "gs.cat", a.T, b.T)
 				idx := vc.ar.IdxSort()
-				sum, _ := vc.ar.Bin("+", app(idx, "str.len", a.T), app(idx, "str.len", b.T), kInt)
+				sum, _ := vc.ar.Bin("+", app(idx, "gs.len", a.T), app(idx, "gs.len", b.T), kInt)
 				r = vc.bind("cat", r)
-				vc.assert(Eq(app(idx, "str.len", r), sum))
+				vc.assert(Eq(app(idx, "gs.len", r), sum))
 				return Val{T: r, Typ: rt}, nil
 			case token.LSS, token.LEQ, token.GTR, token.GEQ:
-				vc.decl("fun:str.lt", "(declare-fun str.lt (Str Str) Bool)")
+				vc.decl("fun:gs.lt", "(declare-fun gs.lt (Str Str) Bool)")
 				var t Term
 				switch op {
 				case token.LSS:
-					t = app(SBool, "str.lt", a.T, b.T)
+					t = app(SBool, "gs.lt", a.T, b.T)
 				case token.GTR:
-					t = app(SBool, "str.lt", b.T, a.T)
+					t = app(SBool, "gs.lt", b.T, a.T)
 				case token.LEQ:
-					t = Not(app(SBool, "str.lt", b.T, a.T))
+					t = Not(app(SBool, "gs.lt", b.T, a.T))
 				default:
-					t = Not(app(SBool, "str.lt", a.T, b.T))
+					t = Not(app(SBool, "gs.lt", a.T, b.T))
 				}
 				return Val{T: t, Typ: rt}, nil
 			}
